@@ -128,7 +128,10 @@ Definition cenc (c : custom) (v : value) : res (list N) :=
       match small_enc d x with Ok (d', u) => Ok (d' :: le_enc 4 u) | Err => Err | Panic => Panic end
   | CCimMode, VL [VN d; VN s; VN t] =>
       if (d <? 256) && (s <? 256) && (t <? 256) then Ok [d; s; t] else Panic
-  | CGameVersion, VB bs => Ok (write_fixed 8 bs)
+  | CGameVersion, VB bs =>
+      (* write_game_version (ver.rs, since e6ae0cc): a text that does not fit the 8 bytes or that the reader would not
+         accept is refused, never cut *)
+      if Nat.leb (length bs) 8 && gv_accepts bs then Ok (write_fixed 8 bs) else Err
   | CNibHiLo, VL [VN h; VN l] =>
       if (h <? 256) && (l <? 256) then (if (15 <? h) || (15 <? l) then Err else Ok [h * 16 + l]) else Panic
   | CNibHi, VN g => if g <? 256 then (if 15 <? g then Err else Ok [g * 16]) else Panic
